@@ -126,11 +126,25 @@ def configs(thorough):
     return C
 
 
+def snap_value(v):
+    """comparable copy of one attribute; objects that cannot be copied (modules, generators, locks, ...) are
+    represented by what identifies their state, so that a check never crashes on what a change stores"""
+    import types
+    if isinstance(v, types.ModuleType):
+        return ("module", v.__name__)
+    if isinstance(v, np.random.RandomState):
+        st = v.get_state()
+        return ("RandomState", str(st[0]), sha(np.asarray(st[1])), int(st[2]))
+    if isinstance(v, np.random.Generator):
+        return ("Generator", repr(v.bit_generator.state))
+    try:
+        return copy.deepcopy(v)
+    except Exception:
+        return ("uncopyable", type(v).__name__, repr(v)[:200])
+
+
 def _snapshot(o):
-    d = {}
-    for k, v in vars(o).items():
-        d[k] = copy.deepcopy(v)
-    return d
+    return {k: snap_value(v) for k, v in vars(o).items()}
 
 
 def _same_dict(a, b):
